@@ -395,6 +395,8 @@ Definition case_wf (c : case) : bool :=
   | CTr rows _ _ => tr_wf rows
   | CGen ref txs _ _ => gen_wf ref txs
   | CSeq rows _ => seq_wf rows
+  | CFa _ _ _ _ _ => false      (* round 6: the link for the indexed-FASTA class needs the fetch theorem, which is proved after
+                                   this file: see [case_wf_fa] / [link_all_fa] in Proofs/C14_fasta_call.v (Props: C14_link_fasta) *)
   end.
 
 Lemma forallb_mem_Forall l D : forallb (fun c => mem c D) l = true -> Forall (fun c => In c D) l.
@@ -506,12 +508,13 @@ Qed.
 
 Theorem link_all : forall c, case_wf c = true -> model_ok c = true -> prop_ok c = true.
 Proof.
-  intros [e rows once twice bio|route e ref ivs o bio|rows outs bio|ref txs o bio|rows steps] Hw Hm.
+  intros [e rows once twice bio|route e ref ivs o bio|rows outs bio|ref txs o bio|rows steps|recs nl fsize fai calls] Hw Hm.
   - apply link_rev; assumption.
   - apply link_str; assumption.
   - apply link_tr; assumption.
   - apply link_gen; assumption.
   - apply link_seq; assumption.
+  - discriminate Hw.
 Qed.
 
 Lemma translate_total rows : bytes_ok rows ->
